@@ -62,6 +62,7 @@ func Run(r *ev.Run) {
 
 	if _, _, worker := par.Shard(); !worker {
 		runPivotPair(r)
+		runPivotDisconnect(r)
 		runIssueVsCompletion(r)
 		runLaunder(r)
 		// the other server flags are not "agent log forwarding": with all of them on and
